@@ -8,7 +8,7 @@
    lifted to every history (C01_reachable).  The older `…_partial` statements are kept: other
    properties' files refer to them. *)
 From Coq Require Import ZArith List.
-From BS Require Import Word BumpSpec ChunkSpec Arena ArenaInv ArenaExt ArenaInv2.
+From BS Require Import Word BumpSpec ChunkSpec Arena ArenaInv ArenaExt ArenaInv2 ArenaSplit.
 Import ListNotations.
 Open Scope Z_scope.
 
@@ -80,6 +80,34 @@ Theorem C01_is_last_no_false_positive :
   in_chunk c ch p sz.
 Proof. exact is_last_in_cur. Qed.
 
+(* ---- split-off parts of a block count as separate live blocks (ArenaSplit.v): dividing a live
+   block is pure bookkeeping, the invariant survives it, and so does every later operation on a part *)
+Theorem C01_split_keeps_invariant :
+  forall c s b blk mid ralign,
+  inv c s -> find_block s b = Some blk -> 0 <= mid <= bsize blk -> (ralign | bptr blk + mid) ->
+  inv c (split_block s b mid ralign).
+Proof. exact split_keeps_inv. Qed.
+
+Theorem C01_split_is_bookkeeping :
+  forall s b mid ralign,
+  chunks (split_block s b mid ralign) = chunks s /\ cur (split_block s b mid ralign) = cur s /\
+  (forall a, mem (split_block s b mid ralign) a = mem s a) /\ depth (split_block s b mid ralign) = depth s /\
+  ledger (split_block s b mid ralign) = ledger s.
+Proof. exact split_is_bookkeeping. Qed.
+
+Theorem C01_split_parts :
+  forall s b blk mid ralign, find_block s b = Some blk ->
+  exists l r, live (split_block s b mid ralign) = r :: l :: live (remove_block s b) /\
+    bptr l = bptr blk /\ bsize l = mid /\ balign l = balign blk /\
+    bptr r = bptr blk + mid /\ bsize r = bsize blk - mid /\ balign r = ralign /\
+    bptr l + bsize l = bptr r /\ bsize l + bsize r = bsize blk /\
+    born l = born blk /\ born r = born blk /\ bid l = nextid s /\ bid r = S (nextid s).
+Proof. exact split_parts. Qed.
+
+Theorem C01_histories_with_splits_keep_invariant :
+  forall c xs s, cfg_ok c -> inv c s -> xrun_ok c s xs -> inv c (fold_left (xstep c) xs s).
+Proof. exact xrun_inv. Qed.
+
 Print Assumptions C01_live_blocks.
 Print Assumptions C01_step_inv_partial.
 Print Assumptions C01_reachable_partial.
@@ -89,3 +117,7 @@ Print Assumptions C01_prepare_gives_commit_contract.
 Print Assumptions C01_initial_unallocated.
 Print Assumptions C01_result_block.
 Print Assumptions C01_is_last_no_false_positive.
+Print Assumptions C01_split_keeps_invariant.
+Print Assumptions C01_split_is_bookkeeping.
+Print Assumptions C01_split_parts.
+Print Assumptions C01_histories_with_splits_keep_invariant.
